@@ -17,7 +17,9 @@ captures and promotions).
   the rules (C01).
 * `M_preserved`: a capture removes a man, a promotion trades a pawn for a piece; `excess ≤ 8 − pawns` is kept.
 * `D_closed`, `D_null`, `D_path`: one generated move, one null move, any sequence of them.
-* the standard start position is in D (kernel evaluation); so is every Chess960 start (see the end). -/
+* the standard start position is in D (`startpos_inD`, kernel evaluation); every Chess960 start position is
+  (`Br.start960_inD` in `Proofs/BridgeStartAll.lean`, twelve blocks of kernel evaluation, ≈ 6 CPU-min, kept out of
+  this file's imports). -/
 namespace Rawr
 open Position Spec ZH MM SV
 
